@@ -225,6 +225,20 @@ func runC12(p *an.Prog, r *an.Run, tier string) {
 	}
 	r.Floor("store-methods", n, 15)
 
+	// ---- answers-from-store: every read method answers from the store's records on every path — a memoised result
+	// (a Stats cache, a remembered node) is only as fresh as its invalidation, and one forgotten writer makes the two
+	// drivers report different things for the same history
+	for _, name := range []string{"GetNode", "GetNodeBalance", "GetAccountBalance", "IsAccountNode", "GetAccountNodes", "AllNodes", "ActiveHosts", "NodePeers", "Stats"} {
+		for _, d := range []*types.Named{mem, bad} {
+			m := p.MethodOf(d, name)
+			if m == nil {
+				continue
+			}
+			skip := successWithoutNodeRead(p, d, m)
+			r.Check(len(skip) == 0, "answers-from-store", driverKind(d)+"."+name, m.Pos(), "no result is returned ahead of every store access", "%s.%s can answer without consulting the store %s", driverKind(d), name, strings.Join(skip, "; "))
+		}
+	}
+
 	// ---- limit-agree: both drivers treat limit > 0 as a cap and 0 as unlimited
 	for _, d := range []*types.Named{mem, bad} {
 		m := p.MethodOf(d, "ActiveHosts")
@@ -489,16 +503,16 @@ func checkSetNodeKeepsPeers(p *an.Prog, r *an.Run) {
 // before the node record has been looked up (an early return for a zero amount, an empty list, ... skips the check).
 func successWithoutNodeRead(p *an.Prog, d *types.Named, m *ssa.Function) []string {
 	ops := driverOps(p, d, m)
-	nodeReads := filterOps(ops, func(o storeOp) bool { return o.Kind == opRead && o.inSpace("node") })
-	if len(nodeReads) == 0 {
-		return []string{"(the node space is never read)"}
+	anyReads := filterOps(ops, func(o storeOp) bool { return o.Kind == opRead || o.Kind == opIter })
+	if len(anyReads) == 0 {
+		return []string{"(the store is never read)"}
 	}
 	var bad []string
 	// The persistent driver looks the node record up only when the record it is after (trial balance, peer set, account
 	// link) is missing: finding a record keyed by the node implies the node is registered. So the gate is "some record
 	// of the store has been read"; what must not exist is a success return ahead of every read.
 	readIn := map[*ssa.Function][]ssa.Instruction{}
-	for _, rd := range filterOps(ops, func(o storeOp) bool { return o.Kind == opRead }) {
+	for _, rd := range anyReads {
 		readIn[rd.Fn] = append(readIn[rd.Fn], rd.In)
 	}
 	// the call instructions of the outer method that run a closure containing the read
